@@ -11,9 +11,9 @@ from .. import labelled as LB
 ID = "C02"
 LEVEL = "proof"
 PROP_FILE = "Properties/C02.v"
-PROOF_FILES = ["Proofs/AllAnyProofs.v", "Proofs/SpfsFinal.v", "Proofs/SpfsProofs.v", "Proofs/ThlProofs.v", "Model/Spfs.v", "Model/Thl.v", "Model/Recon.v", "Model/Entry.v", "Model/Subseq.v", "Model/Toposort.v",
+PROOF_FILES = ["Gen/SpfsGen.v", "Proofs/SpfsGenProofs.v", "Gen/ToposortGen.v", "Proofs/ToposortGenProofs.v", "Gen/EvalGen.v", "Proofs/EvalGenProofs.v", "Gen/TableGen.v", "Proofs/TableGenProofs.v", "Gen/EntryGen.v", "Proofs/EntryGenProofs.v", "Proofs/AllAnyProofs.v", "Proofs/SpfsFinal.v", "Proofs/SpfsProofs.v", "Proofs/ThlProofs.v", "Model/Spfs.v", "Model/Thl.v", "Model/Recon.v", "Model/Entry.v", "Model/Subseq.v", "Model/Toposort.v",
                "Proofs/EntryProofs.v", "Proofs/SubseqProofs.v", "Proofs/LabelCostProofs.v", "Proofs/ToposortProofs.v"]
-TRUSTED = ["model Model/Spfs.v of _compute_spfs_entry/_compute_spfs_table/_decode_spfs_table/_spfs (after fix D5), on the Entry (C16), mask (C18), toposort (C19) and evaluator (C06) models"]
+TRUSTED = ["translator translator/pyfun.py (seventh extension) + the type tables in translator/spfs_gen.py: compute/super_reconciliation.py (_make_prec_graph, _compute_spfs_entry, _compute_spfs_table, _decode_spfs_table, _spfs, sreconcile_base_spfs, sreconcile_extended_spfs; binary inputs: binarize() = the input itself, label_internal() a no-op) and TableProxy.keys/__iter__ are translated into Gen/SpfsGen.v on every run and proved equal to Model/Spfs.v (object nodes = identifiers, species = root paths, LCA structure = the path operations, dictionary/set iteration orders = parameters the theorems quantify over)", "model Model/Spfs.v of _compute_spfs_entry/_compute_spfs_table/_decode_spfs_table/_spfs (after fix D5), on the Entry (C16), mask (C18), toposort (C19) and evaluator (C06) models"]
 ASSUMES = ["binary trees", "cost vectors with spe + 2*sloss <= dup + 2*floss for the optimality clauses (F-COHERENCE)"]
 RULE = ("inputs = (species shape, object shape, leaf species, ordered leaf syntenies over <=3-4 families incl. mutually inconsistent orders, coherent cost vector incl. sloss=0, optional prescribed root synteny); "
         "non-trivial = at least two root orderings or an optimal solution with a segmental loss / duplication / transfer")
@@ -316,14 +316,21 @@ def extra(ctx):
 
 TECHNIQUE = ("Coq proof: refinement of the faithful ordered table (five aggregators per child, six combinations, masks) to a clean recurrence, optimiser charge = evaluator charge "
              "inside the coherent region (runs_inner_bounds), lower bound + attainment + decode soundness/completeness; root orders = compatible orders through C19; "
-             "model tied to the code by table-level correspondence")
+             "model tied to the code twice: the solver source is translated into Gen/SpfsGen.v on every run and proved equal to the model (SpfsGenProofs.v: precedence graph and root orders, one cell, the whole table, decoder, both entry points), and by table-level correspondence")
 OPEN_GOALS: list = []
 LEVEL_TEXT = ("Machine-checked for all binary inputs with non-empty leaf syntenies and cost vectors with spe + 2*sloss <= dup + 2*floss, 0 <= floss, 0 <= sloss, transfer cost finite or +inf: "
               "sreconcile_extended_spfs(ALL) returns exactly the minimum-cost valid ordered solutions over the compatible root orders (or the prescribed one), all species mappings and all labellings; "
               "sreconcile_base_spfs the minimum among solutions on the LCA mapping; ANY one of them; the result is empty exactly when no root order is compatible; the solver never fails. "
               "The model is compared with the code on root orderings, every table value, ALL sets and ANY members; a brute-force specification sample runs on every check.")
-LEVEL_NOTE = ("Trusted: Coq kernel; hand-written model (correspondence = differential testing); C16/C18/C19/C06 layers are themselves theorems. No axioms. "
+LEVEL_NOTE = ("Trusted: Coq kernel; the translator (pyfun.py + spfs_gen.py) that regenerates Gen/SpfsGen.v from the source; hand-written model (proved equal to the generated functions, and correspondence = differential testing); C16/C18/C19/C06 layers are themselves theorems. No axioms. "
               "Theorems are about the code after fix D5. Known finding F-COHERENCE outside the region (witness replayed).")
+
+
+def pre_build(ctx):
+    from translator import spfs_gen
+    from .. import core
+    changed = spfs_gen.regenerate(core.REPO)
+    ctx.notes.append("Gen/SpfsGen.v " + ("regenerated from compute/super_reconciliation.py (content changed)" if changed else "regenerated: unchanged"))
 
 
 def known_signature(f, kf):
